@@ -133,6 +133,17 @@ pub fn codec_compress(c: u8, data: &[u8]) -> Vec<u8> {
         _ => panic!("codec"),
     }
 }
+/// the same content as several concatenated frames where the codec's format allows it (zstd: a stream is a sequence of
+/// frames); other codecs as [codec_compress]
+pub fn codec_compress_frames(c: u8, data: &[u8]) -> Vec<u8> {
+    if c == 4 && data.len() >= 2 {
+        let cut = data.len() / 2;
+        let mut out = zstd::stream::encode_all(&data[..cut], 3).unwrap();
+        out.extend_from_slice(&zstd::stream::encode_all(&data[cut..], 3).unwrap());
+        return out;
+    }
+    codec_compress(c, data)
+}
 pub fn codec_decompress(c: u8, data: &[u8]) -> Result<Vec<u8>, String> {
     let mut out = Vec::new();
     match c {
